@@ -28,7 +28,7 @@ REAL = ["rpyc.core.protocol.Connection._check_attr/_access_attr and all attribut
         "(Service hooks, SlaveService.on_connect)", "netref/brine/channel/stream"]
 STUB = ["sockets/poll/time/locks (simulator)"]
 ASSUMPTIONS = ["the policy model is written from the statement and the DEFAULT_CONFIG documentation"]
-PROBES = ["c06:twin-used", "c06:deny", "c06:hook-decided", "c06:isolation-run", "c06:settings-dict-reused"]
+PROBES = ["c06:twin-used", "c06:deny", "c06:hook-decided", "c06:isolation-run", "c06:settings-dict-reused", "c06:two-name-slicing"]
 PREFIXES = ("exposed_", "x_", "", "éx_")
 _CASES = None
 CHUNK = 16
@@ -162,6 +162,73 @@ def run_one(choices, params):
                 return ca.sync_request(consts.HANDLE_GETROOT)
             finally:
                 cb._local_root = real_root
+
+        class Probe(object):
+            """attributes = keys of __dict__; every lookup of a name that is not there is logged (property getters /
+            __getattr__ hooks of real services react to being probed)"""
+
+            def __init__(self):
+                object.__setattr__(self, "log", [])
+
+            def __getattr__(self, name):
+                self.log.append(("probe", name))
+                raise AttributeError(name)
+
+        def decide_slicing(ci):
+            """handler 18 names TWO attributes: the accessor to try and the one to fall back to when calling the first raises.
+            Both are subject to the get policy; a name the policy denies is neither called nor looked up on the object."""
+            ca, cb, mconf, _ = conns[ci]
+            prefix = mconf["exposed_prefix"] if mconf["allow_exposed_attrs"] else None
+            ncs = name_classes(mconf["exposed_prefix"])
+            na, nf = ncs[w.draw(len(ncs))], ncs[w.draw(len(ncs))]
+            names = []
+            for ncls, raw in (na, nf):
+                names.append(raw.decode("utf-8") if type(raw) is bytes and ncls != "badbytes" else raw)
+            obj = Probe()
+            first_raises = bool(w.draw(2))
+            calls = obj.log
+
+            def mk(nm, raises):
+                def fn(*a):
+                    calls.append(("called", nm))
+                    if raises:
+                        raise IndexError("no slices here")
+                    return ("sliced", nm)
+                return fn
+            present = []
+            for j, nm in enumerate(names):
+                if isinstance(nm, str) and w.draw(4) != 0:
+                    obj.__dict__[nm] = mk(nm, first_raises and j == 0)
+                    present.append(nm)
+            p = fetch(ca, cb, obj)
+            del calls[:]
+            try:
+                got = ("ok", ca.sync_request(consts.HANDLE_OLDSLICING, p, na[1], nf[1], 1, 2, ()))
+            except EOFError:
+                raise core.Violation("other-connection-harmed", "connection %d died on handler 18" % ci)
+            except Exception as e:
+                got = (type(e).__name__.split(".")[-1], str(e)[:80])
+            sim.count("c06:two-name-slicing")
+            info["n"] += 1
+            has = lambda n: n in present        # noqa: E731
+            label = "conn%d cfg=%s prefix=%r op=oldslicing attempt=%r fallback=%r present=%r" % (
+                ci, "".join("1" if mconf[s_] else "0" for s_ in M.SWITCHES), mconf["exposed_prefix"], na[1], nf[1], present)
+            for raw, nm in ((na[1], names[0]), (nf[1], names[1])):
+                v = M.decide(mconf, "get", raw, has)
+                if v[0] in ("deny", "TypeError", "decode-error"):
+                    info["policy"] += 1
+                    if isinstance(nm, str):
+                        if ("called", nm) in calls:
+                            raise core.Violation("touched-differs", "%s: %r is denied by the policy and was called: %r -> %r" % (label, nm, calls, got))
+                        if prefix and ("probe", nm) in calls:
+                            raise core.Violation("touched-differs", "%s: %r is denied by the policy and was looked up on the object: %r" % (
+                                label, nm, calls))
+                elif v[0] == "touch" and v[1] != nm and isinstance(nm, str):
+                    # the exposed twin is what may be used, not the bare name
+                    if ("called", nm) in calls and nm != v[1]:
+                        raise core.Violation("touched-differs", "%s: the bare name %r was called although only its exposed twin %r is permitted" % (
+                            label, nm, v[1]))
+            info["states"].add("slicing2:%s:%s:%s" % (na[0], nf[0], got[0]))
 
         def decide_one(ci, ncls, rawname, shape, op):
             ca, cb, mconf, _ = conns[ci]
@@ -379,6 +446,8 @@ def run_one(choices, params):
                 ncs = name_classes(conns[ci][2]["exposed_prefix"])
                 ncls, rawname = ncs[w.draw(len(ncs))]
                 decide_one(ci, ncls, rawname, shapes[w.draw(len(shapes))], ops[w.draw(len(ops))])
+                if w.draw(6) == 0:
+                    decide_slicing(ci)
                 if mode == "isolation" and w.flip(30) and len(conns) > 1:
                     # close one connection in the middle; the others must be unaffected
                     j = w.draw(len(conns))
